@@ -981,17 +981,37 @@ func (ch *Chain) CancelWithRcode(rcode int, do bool) {
 		}
 	}
 	m := new(dns.Msg)
-	m.Extra = req.Extra
 	m.SetRcode(req, rcode)
 	m.RecursionAvailable = true
 	m.RecursionDesired = true
 
-	if opt := m.IsEdns0(); opt != nil {
-		opt.SetDo(do)
+	if opt := req.IsEdns0(); opt != nil {
+		m.Extra = []dns.RR{rcodeReplyOPT(opt, do)}
 	}
 
 	_ = ch.Writer.WriteMsg(m)
 	ch.count = 0
+}
+
+// rcodeReplyOPT builds the OPT of an rcode-only reply. Two callers write
+// ahead of the edns response writer (the rate limiter's BADCOOKIE and
+// edns's own BADVERS), so nothing downstream strips what this puts in:
+// the reply gets its own OPT carrying the request's size and the cookie
+// option (BADCOOKIE is how the client learns its server cookie), never the
+// request's OPT itself — that would hand the client subnet, padding and
+// every other option the client sent straight back to it.
+func rcodeReplyOPT(reqOPT *dns.OPT, do bool) *dns.OPT {
+	opt := new(dns.OPT)
+	opt.Hdr.Name = "."
+	opt.Hdr.Rrtype = dns.TypeOPT
+	opt.SetUDPSize(reqOPT.UDPSize())
+	opt.SetDo(do)
+	for _, o := range reqOPT.Option {
+		if c, ok := o.(*dns.EDNS0_COOKIE); ok {
+			opt.Option = append(opt.Option, &dns.EDNS0_COOKIE{Code: dns.EDNS0COOKIE, Cookie: c.Cookie})
+		}
+	}
+	return opt
 }
 
 // Reset rebinds the chain to a fresh writer + decoded request for pool
